@@ -175,15 +175,31 @@ def gen(rng: Any, prop: str, tier: str) -> dict[str, Any]:
         kinds = ["execute", "fetchone", "fetchmany", "fetchmany_default", "fetchall", "arraysize", "rowcount", "pandas", "description"]
         weights = [5 if key in executed else 14, 8, 8, 4, 3, 3, 2, 1, 6 if want_c06 else 2]
         if want_c06:
-            kinds += ["nonquery", "describe", "foreign_ddl"]
-            weights += [5, 2, 2 if two else 0]
+            kinds += ["nonquery", "describe", "foreign_ddl", "episode"]
+            weights += [5, 2, 2 if two else 0, 2 if two else 0]
         kind = rng.choices(kinds, weights)[0]
         base = {"s": s, "cur": c, "dict": is_dict}
+        def star() -> dict[str, Any]:
+            return {"sql": f"SELECT * FROM {DB}.{SC}.TT ORDER BY ID", "ids": [10 + i for i in range(n_rows)], "dup": False, "star": True,
+                    "items": [{"expr": c[0], "col": c[0], "name": c[0]} for c in COLS] + [{"expr": "?", "col": None, "name": None, "tc": (0, None, 0)} for _ in range(extra_cols[0])]}
+
+        if kind == "episode":
+            # the same statement text executed twice on one cursor with a change of its result shape in between
+            ops.append({**base, "k": "execute", **star()})
+            ops.append({**base, "k": "description"})
+            if rng.random() < 0.5:
+                ops.append({**base, "k": "fetchmany", "n": 2})
+            if not any(in_txn.values()):
+                extra_cols[0] += 1
+                ops.append({"s": "b", "cur": 1, "dict": False, "k": "foreign", "alter_tt": True, "sql": f"ALTER TABLE {DB}.{SC}.TT ADD COLUMN EXTRA{extra_cols[0]} INT"})
+            ops.append({**base, "k": "execute", **star()})
+            ops.append({**base, "k": "description"})
+            executed.add(key)
+            continue
         if kind == "execute":
             q = _query(rng, n_rows, is_dict, hz)
-            if want_c06 and rng.random() < 0.2:
-                q = {"sql": f"SELECT * FROM {DB}.{SC}.TT ORDER BY ID", "ids": [10 + i for i in range(n_rows)], "dup": False, "star": True,
-                     "items": [{"expr": c[0], "col": c[0], "name": c[0]} for c in COLS] + [{"expr": "?", "col": None, "name": None, "tc": (0, None, 0)} for _ in range(extra_cols[0])]}
+            if want_c06 and rng.random() < 0.3:
+                q = star()
             ops.append({**base, "k": "execute", **q})
             executed.add(key)
         elif kind == "fetchone":
@@ -206,7 +222,7 @@ def gen(rng: Any, prop: str, tier: str) -> dict[str, Any]:
             q = _query(rng, n_rows, is_dict, hz)
             ops.append({**base, "k": "describe", **q})
         elif kind == "nonquery":
-            nq = _nonquery(rng, hz, in_txn.get(s, False))
+            nq = _nonquery(rng, hz, in_txn.get(s, False), any(in_txn.values()))
             if nq["kind"] == "begin":
                 in_txn[s] = True
             elif nq["kind"] in ("commit", "rollback"):
@@ -214,16 +230,17 @@ def gen(rng: Any, prop: str, tier: str) -> dict[str, Any]:
             ops.append({**base, "k": "nonquery", **nq})
             executed.add(key)
         elif kind == "foreign_ddl":
-            if hz["desc_foreign_ddl"] and not any(in_txn.values()):
+            if rng.random() < 0.5 and not any(in_txn.values()):
+                # changes the shape of SELECT * FROM TT: a later execute of the same text must be described afresh
                 extra_cols[0] += 1
-                ops.append({"s": "b", "cur": 1, "dict": False, "k": "foreign", "sql": f"ALTER TABLE {DB}.{SC}.TT ADD COLUMN EXTRA{extra_cols[0]} INT"})
+                ops.append({"s": "b", "cur": 1, "dict": False, "k": "foreign", "alter_tt": True, "sql": f"ALTER TABLE {DB}.{SC}.TT ADD COLUMN EXTRA{extra_cols[0]} INT"})
             else:
                 ops.append({"s": "b", "cur": 1, "dict": False, "k": "foreign", "sql": rng.choice([
                     f"CREATE OR REPLACE TABLE {DB}.{SC}.OTHER (X INT)", f"INSERT INTO {DB}.{SC}.SIDE VALUES ({rng.randint(1, 9)})"])})
     return {"profile": NAME, "config": {"hazards": hz, "rows": rows, "two": two}, "strategy": "serial", "ops": ops}
 
 
-def _nonquery(rng: Any, hz: dict[str, bool], in_txn: bool = False) -> dict[str, Any]:
+def _nonquery(rng: Any, hz: dict[str, bool], in_txn: bool = False, any_txn: bool = False) -> dict[str, Any]:
     """Statements of the other kinds (C06): sql + expected result columns where the property lets us know them."""
     pool: list[dict[str, Any]] = [
         {"sql": f"INSERT INTO {DB}.{SC}.SIDE VALUES ({rng.randint(1, 99)})", "cols": ["number of rows inserted"], "kind": "insert"},
@@ -247,6 +264,9 @@ def _nonquery(rng: Any, hz: dict[str, bool], in_txn: bool = False) -> dict[str, 
         pool.append({"sql": "SELECT RANDOM(42) AS R", "cols": ["R"], "kind": "random"})
     if True:
         pool += [{"sql": f"SHOW TABLES IN SCHEMA {DB}.{SC}", "cols": None, "kind": "show"}, {"sql": "SHOW SCHEMAS", "cols": None, "kind": "show"}]
+    if any_txn:
+        # DDL next to an open transaction of any session could be a write-write conflict: outside the properties
+        pool = [x for x in pool if x["kind"] not in ("create_table", "truncate")]
     return rng.choice(pool)
 
 
@@ -336,6 +356,8 @@ class Machine:
                 raise core.HarnessError(f"foreign statement failed: {out}")
             for s2 in self.state.values():
                 s2["foreign_since_execute"] = True
+                if op.get("alter_tt"):
+                    s2["alter_since_execute"] = True
             return
         cur = self.cursor(op)
         brief = {"op_index": i, "op": {x: op.get(x) for x in ("s", "cur", "dict", "k", "n", "sql")}}
@@ -506,8 +528,12 @@ class Machine:
             return
         names = [d.name for d in desc]
         if kind == "select":
+            if st.get("star") and st.get("alter_since_execute"):
+                # known finding (description is recomputed from the current catalog when read): only demanded in hazard runs
+                if not self.case["config"]["hazards"]["desc_foreign_ddl"]:
+                    return
             if len(desc) != st["ncol"]:
-                self.flag("C06", "description-width/" + ("star-after-foreign-ddl" if st.get("star") and st.get("foreign_since_execute") else "select"), "one description entry per result column", {**brief, "expected": st["ncol"], "observed": names, "statement": st["sql"]})
+                self.flag("C06", "description-width/" + ("star-after-foreign-ddl" if st.get("star") and st.get("alter_since_execute") else "select"), "one description entry per result column", {**brief, "expected": st["ncol"], "observed": names, "statement": st["sql"]})
                 return
             for j, it in enumerate(st["items"]):
                 d = desc[j]
